@@ -1273,4 +1273,5 @@ LEVEL_NOTE = ('PARTIAL by nature. MODELLED and proved: which core function each 
               'kpsewhich, os.environ, importlib.metadata (its answer is regenerated into Gen/Plugins.lean and compared with setup.py; stale metadata breaks the '
               'build), latexcodec. Not covered: undecodable bytes handed to parse_bytes (UnicodeDecodeError by design of the API), streams of the wrong kind '
               '(text stream to a byte plug-in), newline translation on non-POSIX platforms, concurrent modification of the registry. The model follows /repo WITH '
-              'proposed fixes C17-1 (plugin), C17-2 (YAML plug-ins honour `encoding`), C17-3 (BibTeXML parse_string).')
+              'proposed fixes C17-1 (plugin), C17-2 (YAML plug-ins honour `encoding`), C17-3 (BibTeXML parse_string). Recorded boundary (finding C17-empty-document-bom, '
+              'C17_write_file_partial / _neg): for the EMPTY document under a byte-order-mark codec to_bytes is the mark while the written file stays empty.')
